@@ -74,7 +74,7 @@ def gen_rule(rng, depth, w, recs, parent, max_depth=3, max_items=3, p_sip=0.0, a
         if rng.random() < 0.2:
             w.add(rng.choice(COMMENTS))
             w.add(rng.choice([' ', '\n']))
-        if depth < max_depth and rng.random() < 0.35:
+        if depth < max_depth and rng.random() < (0.35 if max_depth <= 4 else 0.7):
             gen_rule(rng, depth + 1, w, recs, rec, max_depth, max_items, p_sip, allow_nosemi)
         else:
             gen_decl(rng, w, recs, rec, rng.random() < p_sip, allow_nosemi, last=(i == n - 1))
